@@ -72,7 +72,7 @@ def mu_table(job, mod, recorded, n):
     out, cache = [], {}
     for o in range(n):
         try:
-            rate = r1 if o < job['size'] else mod.feature_scaling(o, job['size'], recorded, r2, r3)
+            rate = r1 if o < job['size'] else mod.feature_scaling(min(o, recorded), job['size'], recorded, r2, r3)      # capped at the recorded size (fix 57a95e0)
             if rate not in cache:
                 cache[rate] = mod.compute_ecc_params(job['mb'], rate, hasher)['message_size']
             out.append(cache[rate])
